@@ -267,8 +267,12 @@ func Run(prefix []Choice, body func(), o RunOpts) *Result {
 	go func() { s.realWG.Wait(); close(waitCh) }()
 	select {
 	case <-waitCh:
-	case <-time.After(5 * time.Second):
-		s.res.Notes = append(s.res.Notes, "straggler goroutines did not exit within 5s (blocked outside the shim)")
+	case <-time.After(120 * time.Second):
+		// A goroutine of this execution is blocked outside the shim (or the machine is so overloaded that it was not
+		// scheduled for two minutes). It would run on into the next execution and disturb it, so this execution is not
+		// trusted and says so; a wait this long has nothing to do with the property under test.
+		s.res.Status = StInfra
+		s.res.Infra = "straggler goroutines did not exit within 120s (blocked outside the shim)"
 	}
 	cur = nil
 	r := s.res
